@@ -196,7 +196,7 @@ def run(prop, tier, seed, out):
                         out.notes.append("oracle failure attributed to %s (not %s): %s" % (f["prop"], prop, f["what"][:160]))
                 if rep["failure_count"].get(prop, 0) and not out.violations:
                     out.violation("%d oracle failures for %s" % (rep["failure_count"][prop], prop), rep["failures"][:3])
-                out.coverage["samples"] += rep["samples"][:2]
+                out.coverage["samples"] += (rep.get("samples") or [])[:2]
                 out.coverage.setdefault("hook_points_hit", {})
                 for k, v in rep["points"].items():
                     out.coverage["hook_points_hit"][k] = out.coverage["hook_points_hit"].get(k, 0) + v
@@ -276,6 +276,8 @@ def run(prop, tier, seed, out):
                     if len(lres) < 8:
                         raise Broken("too few re-entrant Send scenarios ran")
                     for r in lres:
+                        if r.get("err", "").startswith("panic"):
+                            out.violation("a Broker call panicked: scenario %s: %s" % (r["scenario"]["name"], r["err"][:300]), r)
                         if not r["returned"] and not r.get("hung", "").startswith("(not reproduced"):
                             out.violation("Send never returned although its context was not cancelled and every node returns: scenario %s; goroutines parked on Broker locks: %s"
                                           % (r["scenario"]["name"], r.get("hung", "")[:400]), r)
